@@ -18,6 +18,9 @@ CLAIMED = {
             "Need-more-data is recognised by error type. Streams come from jxlgen + one fixture."),
 }
 
+CLAIMED["C13"] = ("fault_enumeration", "allocation-fault injection (budget sweep and fail-from-k via hook H1) over seeded call histories with a budget-ledger reference model checked after every operation",
+    "Budget ledger model (initial, +expand, -shrink) checked against the tracker after every operation of seeded histories under 4-10 allocation-fault positions per stream; conservation after drop-all checked with the hook counter and with the public API alone. Fault positions are sampled per-mille of the fault-free allocation count / peak.",
+    "Hook H1 counters are trusted (16 lines, add-only). Pool none, single caller.")
 NOT_APPLICABLE = {}
 
 def main():
